@@ -1623,8 +1623,46 @@ def _rand_action(rng):
     return rng.choice(["EF", "ER"])
 
 
+def _c18_histories(res, tier, seed):
+    """"Every emitted Forward …": also the actions an online schedule emits when the client finalises LATE (it asks for
+    further actions before calling finalize) or not at all — histories the canonical client never produces.  The actions
+    of the real object along C10's histories are judged by the Lean executor; only its C18 verdicts (well-formedness of
+    the single action) are read, the other tags presuppose the canonical client."""
+    xs = [x for x in hist_inputs(tier, seed) if x[0].split()[0] in ("SM", "SD", "NO", "TL")]
+    late = [x for x in xs if sum(1 for o in x[1][:next((i for i, o2 in enumerate(x[1]) if o2.startswith("f")), len(x[1]))] if o == "n") >= 2]
+    late = list(dict.fromkeys(late))[: (400 if tier == "quick" else 4000)]
+    real = core.real_hists(late)
+    reqs, keep = [], []
+    for x in late:
+        r = real[x]
+        if r and r[0].startswith("H "):
+            res.harness_errors.append((x, r[0]))
+            continue
+        acts = [ln for ln in r if ln.startswith(("A ", "B "))]
+        if not acts:
+            continue
+        ks = [int(o[1:]) for o, ln in zip(x[1], r) if o.startswith("f") and ln.startswith("f ok")]
+        reqs.append((f"mon {core.lean_spec(x[0])} @ {ks[0] if ks else 1} 1", acts))
+        keep.append((x, acts))
+    outs = core.driver().ask_many(reqs) if reqs else []
+    for (x, acts), out in zip(keep, outs):
+        res.programs += 1
+        for ln in out:
+            w = ln.split()
+            if len(w) == 4 and w[0] == "V" and w[2] == "C18":
+                i = int(w[1])
+                res.viol(x, f"C18.{w[3]} at action {i} of a history with a late finalize: {acts[i].split(' | ')[0] if i < len(acts) else '?'}",
+                         {"actions": [a.split(" | ")[0] for a in acts[: i + 2]]})
+                break
+            if not (len(w) == 4 and w[0] == "V"):
+                res.harness_errors.append((x, "monitor error: " + ln[:80]))
+                break
+    res.nontrivial.add(("late-finalize histories", len(keep)))
+
+
 def check_C18(tier, seed):
     res = check_stream("C18", tier, seed)
+    _c18_histories(res, tier, seed)
     rng = random.Random(seed * 101 + 3)
     count = 400 if tier == "quick" else 5000
     acts = [_rand_action(rng) for _ in range(count)]
